@@ -53,6 +53,13 @@ fn oracle() -> Oracle {
             };
         };
         let Some(item) = o.items.get(k) else { return None };
+        // a first answer that also holds an entry for a signal the test does not know: whether such a
+        // layout is served is not specified (rows or error items), but a deviation from it is an error
+        // item like any other, a returned row attributes correctly, and nothing panics
+        let foreign_first = matches!(seen.script.first(), Some(Step::Ans(a)) if a.iter().any(|(n, _)| n == "Zjunk"));
+        if let ObsItem::Panic(p) = item {
+            return fail(format!("panic: next() panicked for item {k}: {p}"));
+        }
         let call_idx = match (o.calls_after.get(k), o.calls_after.get(k + 1)) {
             (Some(a), Some(b)) if b > a => Some(b - 1),
             _ => None,
@@ -80,6 +87,10 @@ fn oracle() -> Oracle {
         }
         match dev {
             // no deviation so far: identical to the fault-free run
+            None if foreign_first && matches!(item, ObsItem::Runtime(_)) => {
+                st.witness("first_answer_with_an_entry_for_an_unknown_signal");
+                None
+            }
             None => match r.items.get(k) {
                 Some(ri) => item_mismatch(ri, item, proj, None, None).and_then(|m| fail(format!("rows before the fault: item {k}: {m}"))),
                 None => None,
@@ -422,6 +433,16 @@ pub fn run(tier: Tier, seed: u64) -> i32 {
         let mut rev = all_outputs.clone();
         rev.reverse();
         layouts.push(rev);
+        // the full layout with an entry for a signal the test does not know, in front / inside / behind
+        if !all_outputs.is_empty() {
+            for pos in [0, all_outputs.len().div_ceil(2), all_outputs.len()] {
+                let mut l = all_outputs.clone();
+                l.insert(pos.min(l.len()), "Zjunk".to_string());
+                if !layouts.contains(&l) {
+                    layouts.push(l);
+                }
+            }
+        }
         // every layout twice: each signal with a value of its own, and all signals with the same
         // value (a deviation that keeps the length then leaves the values, read by position, as they were)
         for (names, equal) in layouts.into_iter().flat_map(|l| [(l.clone(), false), (l, true)]) {
